@@ -210,6 +210,14 @@ def check_writer(fam: Family, tree, labels, opts) -> list:
     kw = dict(key_map=k_arg, value_map=v_arg, meta=meta)
     if fam.save_mapper is not None:
         kw["mapper"] = fam.save_mapper
+    if meta is not None:
+        # the caller's metadata dict has a history: it was already handed to an earlier save() of the same tree with the
+        # default maps switched on.  The document under test must declare the maps *its* entries were written with.
+        try:
+            with time_limit(10):
+                tree.save(io.StringIO(), **{k: v for k, v in kw.items() if k not in ("key_map", "value_map")})
+        except BaseException:  # noqa: BLE001  (the earlier call is history, not the case under test)
+            pass
     buf = io.StringIO()
     try:
         with time_limit(10):
